@@ -1,3 +1,4 @@
+#define _GNU_SOURCE
 /* Stream cipher driver (C03): for every variant and several (key, nonce, initial counter) windows it runs the
  * stream / xor / xor_ic forms at EVERY length 0..maxlen and logs, per group, the full output at boundary lengths
  * and two position-weighted checksums at every length (+ "bytes beyond len untouched"), to be judged by
@@ -81,6 +82,23 @@ int main(int argc, char **argv) {
               fprintf(v_out, "{\"op\":\"stream_at\",\"v\":\"chacha20_ietf\",\"form\":0,\"ret\":0,\"maxlen\":128,\"drg\":true,"); v_emit_bytes("k", seed, 32); fputc(',', v_out); v_emit_bytes("n", (const unsigned char *) "LibsodiumDRG", 12); fputc(',', v_out);
               v_emit_bytes("ic", ic8, 8); fputc(',', v_out); v_emit_bytes("bytes", big + OFF[o], 128); fputs("}\n", v_out); } }
         munmap(big, tot); v_close(); return 0;
+    }
+    if (!strcmp(argv[2], "wrap32") && argc >= 5) {
+        /* Salsa20/12 and Salsa20/8 have no initial-counter argument: the carry of the 64-bit block counter into its upper word is only
+         * reached by ONE call producing more than 2^38 bytes.  The output goes to a 256 GiB + 64 MiB virtual range made of 4097 mappings
+         * of the same 64 MiB memory file, so what remains afterwards is the last window: blocks 2^32 .. 2^32 + 2^20 - 1. */
+        int v = atoi(argv[4]); const size_t W = (size_t) 64 << 20; const size_t NW = 4097; size_t tot = W * NW;
+        int fd = memfd_create("wrap32", 0); if (fd < 0 || ftruncate(fd, (off_t) W) != 0) { v_close(); return 0; }
+        unsigned char *big = (unsigned char *) mmap(NULL, tot, PROT_NONE, MAP_PRIVATE | MAP_ANONYMOUS | MAP_NORESERVE, -1, 0);
+        if (big == MAP_FAILED) { v_close(); return 0; }
+        for (size_t i = 0; i < NW; i++) if (mmap(big + i * W, W, PROT_READ | PROT_WRITE, MAP_SHARED | MAP_FIXED, fd, 0) == MAP_FAILED) { v_close(); return 0; }
+        unsigned char k[32], n[24], ic8[8]; vrng_bytes(&R, k, 32); vrng_bytes(&R, n, 24);
+        int r = call(v, 0, big, NULL, tot, n, 0, k);
+        static const unsigned long long OFFW[] = { 0, 128, 4096 - 64, ((unsigned long long) 64 << 20) - 128 };
+        for (int o = 0; o < 4; o++) { unsigned long long bi = (1ULL << 32) + OFFW[o] / 64; for (int i = 0; i < 8; i++) ic8[i] = (unsigned char) (bi >> (8 * i));
+            fprintf(v_out, "{\"op\":\"stream_at\",\"v\":\"%s\",\"form\":0,\"ret\":%d,\"maxlen\":128,\"wrap32\":true,", vname[v], r); v_emit_bytes("k", k, 32); fputc(',', v_out); v_emit_bytes("n", n, vnonce[v]); fputc(',', v_out);
+            v_emit_bytes("ic", ic8, 8); fputc(',', v_out); v_emit_bytes("bytes", big + OFFW[o], 128); fputs("}\n", v_out); }
+        munmap(big, tot); close(fd); v_close(); return 0;
     }
     uint64_t r32 = vrng_u64(&R) & 0x7fffffff;
     for (int v = 0; v < 7; v++) {
